@@ -30,9 +30,47 @@ type storeEngine struct {
 	ldg     *ledger.Ledger
 	names   map[string]string // block hash -> symbolic name
 	serial  int
+	fChain  *faultStore
+	fState  *faultStore
 }
 
 func init() { engines["store"] = func() engine { return &storeEngine{names: map[string]string{}} } }
+
+// faultStore counts the low-level durable writes (Put / Delete / Batch.Commit) that reach a leveldb and, once its budget is
+// used up, silently drops every further one: what is on disk afterwards is what a process that died at that write would
+// have left behind.  budget < 0 = unlimited.
+type faultStore struct {
+	storage.Storage
+	writes int
+	budget int
+}
+
+func (f *faultStore) allow() bool {
+	f.writes++
+	return f.budget < 0 || f.writes <= f.budget
+}
+func (f *faultStore) Put(k, v []byte) {
+	if f.allow() {
+		f.Storage.Put(k, v)
+	}
+}
+func (f *faultStore) Delete(k []byte) {
+	if f.allow() {
+		f.Storage.Delete(k)
+	}
+}
+func (f *faultStore) NewBatch() storage.Batch { return &faultBatch{Batch: f.Storage.NewBatch(), f: f} }
+
+type faultBatch struct {
+	storage.Batch
+	f *faultStore
+}
+
+func (b *faultBatch) Commit() {
+	if b.f.allow() {
+		b.Batch.Commit()
+	}
+}
 
 func (e *storeEngine) closeStores() {
 	if e.ldg != nil {
@@ -69,7 +107,9 @@ func (e *storeEngine) openStores() (err error) {
 	if e.bf, err = blockfile.NewBlockFile(e.dir, quietLogger); err != nil {
 		return err
 	}
-	e.ldg, err = ledger.New(rep, e.chainDB, e.stateDB, e.bf, nil, quietLogger)
+	e.fChain = &faultStore{Storage: e.chainDB, budget: -1}
+	e.fState = &faultStore{Storage: e.stateDB, budget: -1}
+	e.ldg, err = ledger.New(rep, e.fChain, e.fState, e.bf, nil, quietLogger)
 	return err
 }
 
@@ -195,8 +235,11 @@ func (e *storeEngine) step(ws []string) string {
 		names := txNamesOf(o["txs"])
 		regTx(names)
 		bd := e.buildBlock(names, o["counter"])
+		e.fState.writes, e.fChain.writes = 0, 0
 		e.ldg.PersistBlockData(bd)
-		return fmt.Sprintf("ok h=%d hash=%s", bd.Block.BlockHeader.Number, e.sym(bd.Block.BlockHash))
+		// the number of low-level durable writes of this persist is part of the observation: a persist path that gains or
+		// loses a write has other crash points than the modelled ones
+		return fmt.Sprintf("ok h=%d hash=%s writes=s%d/c%d", bd.Block.BlockHeader.Number, e.sym(bd.Block.BlockHash), e.fState.writes, e.fChain.writes)
 	case "getblock":
 		h, _ := strconv.ParseUint(ws[1], 10, 64)
 		full := len(ws) > 2 && ws[2] == "full"
@@ -268,6 +311,8 @@ func (e *storeEngine) step(ws []string) string {
 		return fmt.Sprintf("ok h=%d state=%d", m.Height, e.ldg.Version())
 	case "crash":
 		return e.crash(kv(ws[1:]))
+	case "crashw":
+		return e.crashw(kv(ws[1:]))
 	}
 	return "bad-op"
 }
@@ -293,6 +338,70 @@ var bfTables = []string{"hashes", "bodies", "transactions", "receipts", "interch
 // commits the next block for real, then assembles the directory a crash would have left behind:
 // state store before/after (J: with/without the journal-pruning batch), chain index before/after,
 // and the first B blockfile tables (in AppendBlock order) after, the others before; reopens it.
+// crashw ks=<n> kc=<n> B=<0..5> txs=.. counter=..
+// like `crash`, but the state store and the chain index are what the REAL persist leaves behind when the process dies after the
+// ks-th low-level write to the state store and the kc-th to the chain index (fault injection below ledger.New), so every
+// persist point of the current code is covered, whatever it is; the blockfile tables are assembled as in `crash`.
+func (e *storeEngine) crashw(o map[string]string) string {
+	names := txNamesOf(o["txs"])
+	regTx(names)
+	before := mustTempDir("bxhverif-sb-")
+	defer rmDir(before)
+	e.closeStores()
+	if err := copyDir(filepath.Join(e.dir, "storage"), before); err != nil {
+		fail("copy: %v", err)
+	}
+	if err := e.openStores(); err != nil {
+		return "err open-before " + rbClass(err)
+	}
+	bd := e.buildBlock(names, o["counter"])
+	h := bd.Block.BlockHeader.Number
+	ks, _ := strconv.Atoi(o["ks"])
+	kc, _ := strconv.Atoi(o["kc"])
+	e.fState.writes, e.fChain.writes = 0, 0
+	e.fState.budget, e.fChain.budget = ks, kc
+	e.ldg.PersistBlockData(bd)
+	e.closeStores()
+	// blockfile: first B tables as appended, the others as before
+	nb, _ := strconv.Atoi(o["B"])
+	bfDir := filepath.Join(e.dir, "storage", "blockfile")
+	for i, t := range bfTables {
+		if i < nb {
+			continue
+		}
+		cur, _ := filepath.Glob(filepath.Join(bfDir, t+".*"))
+		for _, f := range cur {
+			os.Remove(f)
+		}
+		old, _ := filepath.Glob(filepath.Join(before, "storage", "blockfile", t+".*"))
+		for _, f := range old {
+			data, err := os.ReadFile(f)
+			if err != nil {
+				fail("read %s: %v", f, err)
+			}
+			os.WriteFile(filepath.Join(bfDir, filepath.Base(f)), data, 0o644)
+		}
+	}
+	if err := e.openStores(); err != nil {
+		e.closeStores()
+		return fmt.Sprintf("h=%d open-error %s", h, rbClass(err))
+	}
+	m := e.ldg.GetChainMeta()
+	head := "readable"
+	if m.Height > 0 {
+		if _, err := e.ldg.GetBlock(m.Height, true); err != nil {
+			head = "unreadable"
+		}
+	}
+	blocks, _ := e.bf.Blocks()
+	// the content of the state store: every block writes its height under key "height" of account a0
+	sk := "-"
+	if ok, v := e.ldg.GetState(lAddr("a0"), []byte("height")); ok {
+		sk = string(v)
+	}
+	return fmt.Sprintf("h=%d opened chain=%d state=%d blockfile=%d head=%s statekey=%s", h, m.Height, e.ldg.Version(), blocks, head, sk)
+}
+
 func (e *storeEngine) crash(o map[string]string) string {
 	names := txNamesOf(o["txs"])
 	regTx(names)
@@ -372,5 +481,10 @@ func (e *storeEngine) crash(o map[string]string) string {
 		}
 	}
 	blocks, _ := e.bf.Blocks()
-	return fmt.Sprintf("h=%d opened chain=%d state=%d blockfile=%d head=%s", h, m.Height, e.ldg.Version(), blocks, head)
+	// the content of the state store: every block writes its height under key "height" of account a0
+	sk := "-"
+	if ok, v := e.ldg.GetState(lAddr("a0"), []byte("height")); ok {
+		sk = string(v)
+	}
+	return fmt.Sprintf("h=%d opened chain=%d state=%d blockfile=%d head=%s statekey=%s", h, m.Height, e.ldg.Version(), blocks, head, sk)
 }
